@@ -1446,4 +1446,262 @@ Proof.
 Qed.
 End PC.
 
+
+(* ------------------------------------------------------------------ *)
+(* electron-repulsion kernel (_two_elec_int.py)                         *)
+(* ------------------------------------------------------------------ *)
+(* two (primitive list, column) pairs that every contraction sum cannot tell apart *)
+Definition sum_equiv (p : list (@prim F)) (m : nat) (p' : list (@prim F)) (m' : nat) : Prop :=
+  forall f, ssum f p' m' = ssum f p m.
+
+Lemma sum_equiv_refl p m : sum_equiv p m p m.
+Proof. intros f. reflexivity. Qed.
+Lemma sum_equiv_perm p p' m : Permutation p p' -> sum_equiv p m p' m.
+Proof. intros H f. symmetry. now apply ssum_perm. Qed.
+Lemma sum_equiv_col es C m : sum_equiv (combine es C) m (combine es (col_rows m 0 C)) 0.
+Proof. intros f. apply ssum_col. Qed.
+Lemma sum_equiv_split l1 l2 a r r1 r2 m : r = map2 (fadd K) r1 r2 -> length r1 = length r2 ->
+  sum_equiv (l1 ++ (a, r) :: l2) m (l1 ++ (a, r1) :: (a, r2) :: l2) m.
+Proof. intros Hr Hl f. apply ssum_split. subst r. now apply nth_map2_add. Qed.
+
+Definition qsum (E : F -> F -> F -> F -> F) (N1 N2 N3 N4 : F -> F) (p1 p2 p3 p4 : list (@prim F))
+           (m1 m2 m3 m4 : nat) : F :=
+  ssum (fun a => ssum (fun b => ssum (fun c => ssum (fun d => E a b c d * N4 d) p4 m4 * N3 c) p3 m3 * N2 b)
+                      p2 m2 * N1 a) p1 m1.
+
+Lemma qsum_congr E N1 N2 N3 N4 p1 p2 p3 p4 m1 m2 m3 m4 p1' p2' p3' p4' m1' m2' m3' m4' :
+  sum_equiv p1 m1 p1' m1' -> sum_equiv p2 m2 p2' m2' -> sum_equiv p3 m3 p3' m3' -> sum_equiv p4 m4 p4' m4' ->
+  qsum E N1 N2 N3 N4 p1' p2' p3' p4' m1' m2' m3' m4' = qsum E N1 N2 N3 N4 p1 p2 p3 p4 m1 m2 m3 m4.
+Proof.
+  intros H1 H2 H3 H4. unfold qsum. rewrite H1. apply ssum_ext. intros a. f_equal.
+  rewrite H2. apply ssum_ext. intros b. f_equal. rewrite H3. apply ssum_ext. intros c. f_equal. apply H4.
+Qed.
+
+Lemma combine_wts {B} (g : F * list F -> F * list F) (phi : F -> B) es (C : list (list F)) :
+  combine (map g (combine es C)) (map phi es) = map (fun q => (g q, phi (fst q))) (combine es C).
+Proof. revert C; induction es as [|e es IH]; intros [|c C]; cbn; try reflexivity. now rewrite IH. Qed.
+
+Lemma csum_wts {B} (s : shell F) (phi : F -> B) (f : B -> F) m :
+  csum K (wts K s) m (map phi (s_exps s)) f = ssum (fun a => f (phi a) * norm_rad K (s_l s) a) (prims s) m.
+Proof.
+  unfold csum, wts, ssum, prims. rewrite combine_wts, map_map. apply fsum_map_ext. intros [a row].
+  unfold wcoef. cbn [fst snd]. ring.
+Qed.
+
+Definition eri_E (s1 s2 s3 s4 : shell F) (cx cy cz ax ay az : nat) (a b c d : F) : F :=
+  fapx K (eget K (eri_prim K (s_l s1 + s_l s2 + s_l s3 + s_l s4) (s_l s3 + s_l s4)
+                    (coord3 s1) (coord3 s2) (coord3 s3) (coord3 s4) a b c d) cx cy cz ax ay az).
+
+Definition eri_ctr (s1 s2 s3 s4 : shell F) (p1 p2 p3 p4 : list (@prim F))
+           (m1 m2 m3 m4 cx cy cz ax ay az : nat) : F :=
+  qsum (eri_E s1 s2 s3 s4 cx cy cz ax ay az)
+       (norm_rad K (s_l s1)) (norm_rad K (s_l s2)) (norm_rad K (s_l s3)) (norm_rad K (s_l s4))
+       p1 p2 p3 p4 m1 m2 m3 m4.
+
+Lemma eri_contract_qsum s1 s2 s3 s4 m1 m2 m3 m4 cx cy cz ax ay az :
+  eri_contract K (wts K s1) (wts K s2) (wts K s3) (wts K s4)
+    (map (fun alpha => map (fun beta => map (fun gamma => map (fun delta =>
+       eri_prim K (s_l s1 + s_l s2 + s_l s3 + s_l s4) (s_l s3 + s_l s4)
+                (coord3 s1) (coord3 s2) (coord3 s3) (coord3 s4) alpha beta gamma delta)
+       (s_exps s4)) (s_exps s3)) (s_exps s2)) (s_exps s1)) m1 m2 m3 m4 cx cy cz ax ay az
+  = eri_ctr s1 s2 s3 s4 (prims s1) (prims s2) (prims s3) (prims s4) m1 m2 m3 m4 cx cy cz ax ay az.
+Proof.
+  unfold eri_contract, eri_ctr, qsum. rewrite csum_wts. apply ssum_ext. intros a. f_equal.
+  rewrite csum_wts. apply ssum_ext. intros b. f_equal.
+  rewrite csum_wts. apply ssum_ext. intros c. f_equal.
+  rewrite csum_wts. reflexivity.
+Qed.
+
+(* the model with the numbers of columns and the contraction abstracted (reads only the frames) *)
+Definition eri_chans_gen (M1 M2 M3 M4 : nat)
+           (ctr : nat -> nat -> nat -> nat -> nat -> nat -> nat -> nat -> nat -> nat -> F)
+           (s1 s2 s3 s4 : shell F) :=
+  let la := s_l s1 in let lb := s_l s2 in let lc := s_l s3 in let ld := s_l s4 in
+  let Lc := (lc + ld)%nat in let La := (la + lb)%nat in
+  let abx := s_x s1 - s_x s2 in let aby := s_y s1 - s_y s2 in let abz := s_z s1 - s_z s2 in
+  let cdx := s_x s3 - s_x s4 in let cdy := s_y s3 - s_y s4 in let cdz := s_z s3 - s_z s4 in
+  mk M1 (fun m1 => mk M2 (fun m2 => mk M3 (fun m3 => mk M4 (fun m4 =>
+    eri_channel K La Lc lb ld abx aby abz cdx cdy cdz (comps_of s3) (comps_of s4) (ctr m1 m2 m3 m4))))).
+
+Definition eri_block_gen (M1 M2 M3 M4 : nat)
+           (ctr : nat -> nat -> nat -> nat -> nat -> nat -> nat -> nat -> nat -> nat -> F)
+           (s1 s2 s3 s4 : shell F) : list (list (list (list (list (list (list (list F))))))) :=
+  let comps1 := comps_of s1 in let comps2 := comps_of s2 in
+  let comps3 := comps_of s3 in let comps4 := comps_of s4 in
+  let chans := eri_chans_gen M1 M2 M3 M4 ctr s1 s2 s3 s4 in
+  let f1 := map (inv_sqrt_df K) comps1 in let f2 := map (inv_sqrt_df K) comps2 in
+  let f3 := map (inv_sqrt_df K) comps3 in let f4 := map (inv_sqrt_df K) comps4 in
+  mk M1 (fun m1 => mk (length comps1) (fun i1 =>
+    mk M2 (fun m2 => mk (length comps2) (fun i2 =>
+      mk M3 (fun m3 => mk (length comps3) (fun i3 =>
+        mk M4 (fun m4 => mk (length comps4) (fun i4 =>
+          let c1 := nth i1 comps1 (0, 0, 0)%nat in let c2 := nth i2 comps2 (0, 0, 0)%nat in
+          let ch := nth m4 (nth m3 (nth m2 (nth m1 chans []) []) []) [] in
+          let h := nth i4 (nth i3 ch []) [] in
+          cget K (nth (snd c2) (nth (snd (fst c2)) (nth (fst (fst c2)) h []) []) [])
+                 (fst (fst c1)) (snd (fst c1)) (snd c1)
+          * nth i1 f1 0 * nth i2 f2 0 * nth i3 f3 0 * nth i4 f4 0)))))))).
+
+Lemma eri_channel_ext La Lc lb ld abx aby abz cdx cdy cdz comps3 comps4 getc getc' :
+  (forall cx cy cz ax ay az, getc cx cy cz ax ay az = getc' cx cy cz ax ay az) ->
+  eri_channel K La Lc lb ld abx aby abz cdx cdy cdz comps3 comps4 getc
+  = eri_channel K La Lc lb ld abx aby abz cdx cdy cdz comps3 comps4 getc'.
+Proof.
+  intros H. unfold eri_channel. cbv zeta. apply map_ext. intros c3. apply map_ext. intros c4. f_equal.
+  apply mk_ext. intros ax Hax. apply mk_ext. intros ay Hay. apply mk_ext. intros az Haz.
+  rewrite !(nth_mk (S La) _ _ ax) by exact Hax. rewrite !(nth_mk (S La) _ _ ay) by exact Hay.
+  rewrite !(nth_mk (S La) _ _ az) by exact Haz. do 5 f_equal.
+  apply mk_ext. intros cx _. apply mk_ext. intros cy _. apply mk_ext. intros cz _. apply H.
+Qed.
+
+Lemma eri_chans_gen_ext M1 M2 M3 M4 ctr ctr' s1 s2 s3 s4 :
+  (forall m1 m2 m3 m4 cx cy cz ax ay az, m1 < M1 -> m2 < M2 -> m3 < M3 -> m4 < M4 ->
+     ctr m1 m2 m3 m4 cx cy cz ax ay az = ctr' m1 m2 m3 m4 cx cy cz ax ay az) ->
+  eri_chans_gen M1 M2 M3 M4 ctr s1 s2 s3 s4 = eri_chans_gen M1 M2 M3 M4 ctr' s1 s2 s3 s4.
+Proof.
+  intros H. unfold eri_chans_gen. cbv zeta. apply mk_ext. intros m1 H1. apply mk_ext. intros m2 H2.
+  apply mk_ext. intros m3 H3. apply mk_ext. intros m4 H4. apply eri_channel_ext. intros. now apply H.
+Qed.
+
+Lemma eri_block_gen_ext M1 M2 M3 M4 ctr ctr' s1 s2 s3 s4 :
+  (forall m1 m2 m3 m4 cx cy cz ax ay az, m1 < M1 -> m2 < M2 -> m3 < M3 -> m4 < M4 ->
+     ctr m1 m2 m3 m4 cx cy cz ax ay az = ctr' m1 m2 m3 m4 cx cy cz ax ay az) ->
+  eri_block_gen M1 M2 M3 M4 ctr s1 s2 s3 s4 = eri_block_gen M1 M2 M3 M4 ctr' s1 s2 s3 s4.
+Proof. intros H. unfold eri_block_gen. cbv zeta. now rewrite (eri_chans_gen_ext M1 M2 M3 M4 ctr ctr' s1 s2 s3 s4 H). Qed.
+
+Lemma eri_block_form s1 s2 s3 s4 :
+  eri_block K s1 s2 s3 s4
+  = eri_block_gen (nseg s1) (nseg s2) (nseg s3) (nseg s4)
+      (eri_ctr s1 s2 s3 s4 (prims s1) (prims s2) (prims s3) (prims s4)) s1 s2 s3 s4.
+Proof.
+  transitivity (eri_block_gen (nseg s1) (nseg s2) (nseg s3) (nseg s4)
+     (fun m1 m2 m3 m4 => eri_contract K (wts K s1) (wts K s2) (wts K s3) (wts K s4)
+        (map (fun alpha => map (fun beta => map (fun gamma => map (fun delta =>
+           eri_prim K (s_l s1 + s_l s2 + s_l s3 + s_l s4) (s_l s3 + s_l s4)
+                    (coord3 s1) (coord3 s2) (coord3 s3) (coord3 s4) alpha beta gamma delta)
+           (s_exps s4)) (s_exps s3)) (s_exps s2)) (s_exps s1)) m1 m2 m3 m4) s1 s2 s3 s4).
+  - reflexivity.
+  - apply eri_block_gen_ext. intros. apply eri_contract_qsum.
+Qed.
+
+(* shells with the same frame *)
+Definition same_frame (s s' : shell F) : Prop :=
+  s_l s' = s_l s /\ s_x s' = s_x s /\ s_y s' = s_y s /\ s_z s' = s_z s /\ comps_of s' = comps_of s.
+
+Lemma same_frame_set_prims s ps : same_frame s (set_prims s ps).
+Proof. repeat split. Qed.
+Lemma same_frame_set_coeffs s C : same_frame s (set_coeffs s C).
+Proof. repeat split. Qed.
+Lemma same_frame_refl s : same_frame s s.
+Proof. repeat split. Qed.
+
+(* 2./3. any rewriting of the four shells that no contraction sum can tell apart (a permutation of the
+   primitives, a split primitive) leaves the whole block unchanged *)
+Theorem eri_block_congr s1 s2 s3 s4 s1' s2' s3' s4' :
+  same_frame s1 s1' -> same_frame s2 s2' -> same_frame s3 s3' -> same_frame s4 s4' ->
+  nseg s1' = nseg s1 -> nseg s2' = nseg s2 -> nseg s3' = nseg s3 -> nseg s4' = nseg s4 ->
+  (forall m, sum_equiv (prims s1) m (prims s1') m) -> (forall m, sum_equiv (prims s2) m (prims s2') m) ->
+  (forall m, sum_equiv (prims s3) m (prims s3') m) -> (forall m, sum_equiv (prims s4) m (prims s4') m) ->
+  eri_block K s1' s2' s3' s4' = eri_block K s1 s2 s3 s4.
+Proof.
+  intros [A1 [A2 [A3 [A4 A5]]]] [B1 [B2 [B3 [B4 B5]]]] [C1 [C2 [C3 [C4 C5]]]] [D1 [D2 [D3 [D4 D5]]]]
+         N1 N2 N3 N4 E1 E2 E3 E4.
+  rewrite !eri_block_form, N1, N2, N3, N4.
+  transitivity (eri_block_gen (nseg s1) (nseg s2) (nseg s3) (nseg s4)
+                  (eri_ctr s1' s2' s3' s4' (prims s1') (prims s2') (prims s3') (prims s4')) s1 s2 s3 s4).
+  - unfold eri_block_gen, eri_chans_gen. cbv zeta.
+    now rewrite A1, A2, A3, A4, A5, B1, B2, B3, B4, B5, C1, C2, C3, C4, C5, D1, D2, D3, D4, D5.
+  - apply eri_block_gen_ext. intros. unfold eri_ctr, eri_E, coord3.
+    rewrite A1, A2, A3, A4, B1, B2, B3, B4, C1, C2, C3, C4, D1, D2, D3, D4.
+    apply qsum_congr; auto.
+Qed.
+
+Theorem eri_prim_perm_invariant s1 s2 s3 s4 p1 p2 p3 p4 :
+  Permutation (prims s1) p1 -> Permutation (prims s2) p2 -> Permutation (prims s3) p3 -> Permutation (prims s4) p4 ->
+  nseg (set_prims s1 p1) = nseg s1 -> nseg (set_prims s2 p2) = nseg s2 ->
+  nseg (set_prims s3 p3) = nseg s3 -> nseg (set_prims s4 p4) = nseg s4 ->
+  eri_block K (set_prims s1 p1) (set_prims s2 p2) (set_prims s3 p3) (set_prims s4 p4) = eri_block K s1 s2 s3 s4.
+Proof.
+  intros P1 P2 P3 P4 N1 N2 N3 N4.
+  apply eri_block_congr; auto using same_frame_set_prims; intros m; rewrite prims_set_prims;
+    now apply sum_equiv_perm.
+Qed.
+
+(* splitting a primitive of any one of the four shells *)
+Theorem eri_prim_split_1 s1 s2 s3 s4 l1 l2 a r r1 r2 :
+  prims s1 = l1 ++ (a, r) :: l2 -> r = map2 (fadd K) r1 r2 -> length r1 = length r2 ->
+  eri_block K (set_prims s1 (l1 ++ (a, r1) :: (a, r2) :: l2)) s2 s3 s4 = eri_block K s1 s2 s3 s4.
+Proof.
+  intros Hp Hr Hl.
+  apply eri_block_congr; auto using same_frame_set_prims, same_frame_refl, sum_equiv_refl.
+  - now apply (nseg_split s1 l1 l2 a r r1 r2).
+  - intros m. rewrite prims_set_prims, Hp. now apply sum_equiv_split.
+Qed.
+Theorem eri_prim_split_2 s1 s2 s3 s4 l1 l2 a r r1 r2 :
+  prims s2 = l1 ++ (a, r) :: l2 -> r = map2 (fadd K) r1 r2 -> length r1 = length r2 ->
+  eri_block K s1 (set_prims s2 (l1 ++ (a, r1) :: (a, r2) :: l2)) s3 s4 = eri_block K s1 s2 s3 s4.
+Proof.
+  intros Hp Hr Hl.
+  apply eri_block_congr; auto using same_frame_set_prims, same_frame_refl, sum_equiv_refl.
+  - now apply (nseg_split s2 l1 l2 a r r1 r2).
+  - intros m. rewrite prims_set_prims, Hp. now apply sum_equiv_split.
+Qed.
+Theorem eri_prim_split_3 s1 s2 s3 s4 l1 l2 a r r1 r2 :
+  prims s3 = l1 ++ (a, r) :: l2 -> r = map2 (fadd K) r1 r2 -> length r1 = length r2 ->
+  eri_block K s1 s2 (set_prims s3 (l1 ++ (a, r1) :: (a, r2) :: l2)) s4 = eri_block K s1 s2 s3 s4.
+Proof.
+  intros Hp Hr Hl.
+  apply eri_block_congr; auto using same_frame_set_prims, same_frame_refl, sum_equiv_refl.
+  - now apply (nseg_split s3 l1 l2 a r r1 r2).
+  - intros m. rewrite prims_set_prims, Hp. now apply sum_equiv_split.
+Qed.
+Theorem eri_prim_split_4 s1 s2 s3 s4 l1 l2 a r r1 r2 :
+  prims s4 = l1 ++ (a, r) :: l2 -> r = map2 (fadd K) r1 r2 -> length r1 = length r2 ->
+  eri_block K s1 s2 s3 (set_prims s4 (l1 ++ (a, r1) :: (a, r2) :: l2)) = eri_block K s1 s2 s3 s4.
+Proof.
+  intros Hp Hr Hl.
+  apply eri_block_congr; auto using same_frame_set_prims, same_frame_refl, sum_equiv_refl.
+  - now apply (nseg_split s4 l1 l2 a r r1 r2).
+  - intros m. rewrite prims_set_prims, Hp. now apply sum_equiv_split.
+Qed.
+
+(* 1. generalized = segmented: the block of the four single-column shells is the (m1, m2, m3, m4) slice *)
+Definition nth8 (m1 i1 m2 i2 m3 i3 m4 i4 : nat) (b : list (list (list (list (list (list (list (list F)))))))) : F :=
+  nth i4 (nth m4 (nth i3 (nth m3 (nth i2 (nth m2 (nth i1 (nth m1 b []) []) []) []) []) []) []) 0.
+
+Theorem eri_generalized_is_segmented s1 s2 s3 s4 m1 m2 m3 m4 :
+  m1 < nseg s1 -> m2 < nseg s2 -> m3 < nseg s3 -> m4 < nseg s4 ->
+  eri_block K (col_shell s1 m1) (col_shell s2 m2) (col_shell s3 m3) (col_shell s4 m4)
+  = mk 1 (fun _ => mk (ncomp s1) (fun i1 => mk 1 (fun _ => mk (ncomp s2) (fun i2 =>
+      mk 1 (fun _ => mk (ncomp s3) (fun i3 => mk 1 (fun _ => mk (ncomp s4) (fun i4 =>
+        nth8 m1 i1 m2 i2 m3 i3 m4 i4 (eri_block K s1 s2 s3 s4))))))))).
+Proof.
+  intros H1 H2 H3 H4. rewrite !eri_block_form.
+  rewrite (nseg_col_shell s1 m1 H1), (nseg_col_shell s2 m2 H2), (nseg_col_shell s3 m3 H3), (nseg_col_shell s4 m4 H4).
+  change (eri_block_gen 1 1 1 1 ?c (col_shell s1 m1) (col_shell s2 m2) (col_shell s3 m3) (col_shell s4 m4))
+    with (eri_block_gen 1 1 1 1 c s1 s2 s3 s4).
+  unfold eri_block_gen. cbv zeta. unfold ncomp.
+  apply mk_ext. intros a Ha. apply mk_ext. intros i1 Hi1. apply mk_ext. intros b Hb. apply mk_ext. intros i2 Hi2.
+  apply mk_ext. intros c Hc. apply mk_ext. intros i3 Hi3. apply mk_ext. intros d Hd. apply mk_ext. intros i4 Hi4.
+  assert (a = 0%nat) by lia. assert (b = 0%nat) by lia. assert (c = 0%nat) by lia. assert (d = 0%nat) by lia.
+  subst a b c d. unfold nth8.
+  rewrite (nth_mk (nseg s1) _ _ m1) by exact H1. rewrite (nth_mk _ _ _ i1) by exact Hi1.
+  rewrite (nth_mk (nseg s2) _ _ m2) by exact H2. rewrite (nth_mk _ _ _ i2) by exact Hi2.
+  rewrite (nth_mk (nseg s3) _ _ m3) by exact H3. rewrite (nth_mk _ _ _ i3) by exact Hi3.
+  rewrite (nth_mk (nseg s4) _ _ m4) by exact H4. rewrite (nth_mk _ _ _ i4) by exact Hi4.
+  unfold eri_chans_gen. cbv zeta.
+  rewrite (nth_mk (nseg s1) _ _ m1) by exact H1. rewrite (nth_mk (nseg s2) _ _ m2) by exact H2.
+  rewrite (nth_mk (nseg s3) _ _ m3) by exact H3. rewrite (nth_mk (nseg s4) _ _ m4) by exact H4.
+  rewrite !mk1. cbn [nth].
+  rewrite (eri_channel_ext _ _ _ _ _ _ _ _ _ _ _ _
+             (eri_ctr (col_shell s1 m1) (col_shell s2 m2) (col_shell s3 m3) (col_shell s4 m4)
+                (prims (col_shell s1 m1)) (prims (col_shell s2 m2)) (prims (col_shell s3 m3))
+                (prims (col_shell s4 m4)) 0 0 0 0)
+             (eri_ctr s1 s2 s3 s4 (prims s1) (prims s2) (prims s3) (prims s4) m1 m2 m3 m4)); [reflexivity|].
+  intros. unfold eri_ctr.
+  change (eri_E (col_shell s1 m1) (col_shell s2 m2) (col_shell s3 m3) (col_shell s4 m4)) with (eri_E s1 s2 s3 s4).
+  change (s_l (col_shell ?s ?m)) with (s_l s).
+  apply qsum_congr; apply sum_equiv_col.
+Qed.
+
 End P.
